@@ -9,8 +9,12 @@ namespace GoFlags
 
 abbrev Bytes := List Nat
 
-/-- ASCII literal → bytes (for message templates). -/
-def B (s : String) : Bytes := s.toUTF8.toList.map (·.toNat)
+/-- `B "text"`: the UTF-8 bytes of a string literal, expanded at elaboration time into a plain
+    list literal (so that the kernel can compute with message templates). -/
+macro "B " s:str : term => do
+  let bytes := s.getString.toUTF8.toList.map (·.toNat)
+  let elems := bytes.map fun b => Lean.Syntax.mkNumLit (toString b)
+  `(([$(elems.toArray),*] : List Nat))
 
 namespace Bytes
 
